@@ -219,6 +219,12 @@ def class_source(c, out):
             for line in c[cb] or ["pass"]:
                 out.append("        " + line)
     for b in c.get("blocks", []):
+        if b.get("bind"):
+            # the block is bound to its attribute by assignment: the function's own name differs from the block's name
+            out.append("    def _body_of_%s(self):" % b["name"])
+            rbody(b["stmts"], "self", 2, out)
+            out.append("    %s = vsc.constraint(_body_of_%s)" % (b["name"], b["name"]))
+            continue
         out.append("    @vsc.constraint")
         out.append("    def %s(self):" % b["name"])
         rbody(b["stmts"], "self", 2, out)
